@@ -161,16 +161,16 @@ namespace
         {
             name = arr->at(0).data<d_string, std::string>();
             auto tmpArr = arr->at(1).data<d_array>();
+            if (!tmpArr->check_type(runtime, t_scalar(), 2, 3))
+            {
+                return {};
+            }
             pos = std::array<float, 3>
             {
                 tmpArr->at(0).data<d_scalar, float>(),
                 tmpArr->at(1).data<d_scalar, float>(),
                 tmpArr->size() > 2 ? tmpArr->at(2).data<d_scalar, float>() : 0
             };
-            if (!arr->check_type(runtime, t_scalar(), 2, 3))
-            {
-                return {};
-            }
         }
         else
         {
@@ -182,8 +182,9 @@ namespace
             runtime.__logmsg(err::ReturningEmptyString(runtime.context_active().current_frame().diag_info_from_position()));
             return "";
         }
-        auto& marker = runtime.storage<sqf::operators::markers_storage>().at(name);
+        sqf::operators::markers_storage::marker marker;
         marker.set_pos(pos);
+        runtime.storage<sqf::operators::markers_storage>().set(name, marker);
         return name;
     }
     value deletemarker_string(runtime& runtime, value::cref right)
